@@ -3,6 +3,7 @@ package c18
 import (
 	"bytes"
 	"fmt"
+	"strings"
 	"sync"
 	"time"
 
@@ -30,6 +31,8 @@ func partialEnqueue(o *drv.Out, base string) {
 	msgA := Pattern(65, chunk+8) // two packets: chunk bytes, then 8 bytes + EOF
 	msgB := Pattern(66, 16)
 	type outcome struct {
+		tornDown bool // A ended the connection because of the partial enqueue (the repaired code)
+		okB      bool
 		sendA    bool
 		elapsed  time.Duration
 		last     []byte
@@ -84,7 +87,12 @@ func partialEnqueue(o *drv.Out, base string) {
 		oc.elapsed = time.Since(t0)
 		// the link recovers
 		l.ab.With(func(p *c17.Pipe) { p.Cap, p.Delay = 0, 0 })
-		okB := l.mc.Send(T, msgB)
+		for _, line := range l.a.log.Lines() {
+			if strings.Contains(line, "short write") {
+				oc.tornDown = true
+			}
+		}
+		oc.okB = l.mc.Send(T, msgB)
 		deadline := time.Now().Add(60 * time.Second)
 		for time.Now().Before(deadline) {
 			mu.Lock()
@@ -98,14 +106,17 @@ func partialEnqueue(o *drv.Out, base string) {
 				oc.last = last
 				break
 			}
-			if l.ab.Len() == 0 && l.ab.Closed {
+			closed := false
+			l.ab.With(func(p *c17.Pipe) { closed = p.Closed && len(p.Items) == 0 })
+			if closed {
+				time.Sleep(300 * time.Millisecond) // let the receiver finish what it already read
 				break
 			}
 			time.Sleep(20 * time.Millisecond)
 		}
 		close(stop)
 		dwg.Wait()
-		if !okB || oc.last == nil {
+		if !oc.tornDown && (!oc.okB || oc.last == nil) {
 			oc.died = true
 			return oc
 		}
@@ -132,11 +143,29 @@ func partialEnqueue(o *drv.Out, base string) {
 				o.Count("f8:attempt-connection-died")
 			case oc.sendA:
 				o.Count("f8:attempt-A-fully-enqueued")
-			case len(oc.unknown) == 0:
-				o.Count("f8:attempt-A-failed-cleanly")
-			default:
+			case len(oc.unknown) > 0:
 				o.Count("f8:attempt-merged")
+			case oc.tornDown:
+				o.Count("f8:attempt-partial-then-connection-ended")
+			default:
+				o.Count("f8:attempt-A-failed-cleanly")
 			}
+		}
+		// the repaired behaviour: a partial enqueue ends the connection, B is refused, nothing unknown arrives
+		for _, oc := range res {
+			if oc.died || oc.sendA || !oc.tornDown || len(oc.unknown) > 0 {
+				continue
+			}
+			if oc.okB {
+				o.Fail("C18:send-accepted-after-partial-enqueue", "Send on the same stream returned true after a partial enqueue had ended the connection", nil)
+			}
+			o.Op(fmt.Sprintf("send-partial %d 65 %d 1", T, len(msgA)), "fail 1")
+			o.Op(fmt.Sprintf("send %d 66 %d", T, len(msgB)), map[bool]string{true: "ok 1", false: "refused"}[oc.okB])
+			o.Op("deliver-all", "open")
+			o.Op(fmt.Sprintf("inbox %d", T), "0")
+			o.Nontrivial("partial-enqueue ended the connection")
+			o.Sample(fmt.Sprintf("partial-enqueue: Send(topic %d, 2 packets) returned false after %.1fs with one packet queued; the connection was ended (short write); Send(B) refused; nothing but the filler messages reached the inbox", T, oc.elapsed.Seconds()))
+			return
 		}
 		for _, oc := range res {
 			if oc.died || oc.sendA || len(oc.unknown) == 0 {
